@@ -49,13 +49,37 @@ func hasTxInScope(f *ssa.Function) bool {
 	return false
 }
 
-// callsIn: f or its nested closures contain a call satisfying pred.
+// callsIn: f, its nested closures or the gluon functions they call statically (3 frames)
+// contain a call satisfying pred.
 func callsIn(f *ssa.Function, pred func(cs engine.CallSite) bool) bool {
-	for _, g := range engine.WithClosures(f) {
-		for _, cs := range engine.Calls(g) {
-			if pred(cs) {
-				return true
+	seen := map[*ssa.Function]bool{}
+	var rec func(f *ssa.Function, d int) bool
+	rec = func(f *ssa.Function, d int) bool {
+		if f == nil || seen[f] || d > 3 {
+			return false
+		}
+		seen[f] = true
+		for _, g := range engine.WithClosures(f) {
+			for _, cs := range engine.Calls(g) {
+				if pred(cs) {
+					return true
+				}
+				if sc := cs.Common().StaticCallee(); sc != nil && len(sc.Blocks) > 0 && strings.HasPrefix(engine.PkgPathOf(sc), "github.com/ProtonMail/gluon") {
+					if rec(engine.Unwrap2(sc), d+1) {
+						return true
+					}
+				}
 			}
+		}
+		return false
+	}
+	return rec(f, 0)
+}
+
+func takesTransaction(f *ssa.Function) bool {
+	for _, p := range f.Params {
+		if engine.IsNamed(p.Type(), "db", "Transaction") {
+			return true
 		}
 	}
 	return false
@@ -135,8 +159,26 @@ func c07(c *Ctx) {
 			if !isStoreWrite(cs) {
 				continue
 			}
-			if topFn(f).Name() == "getLiteral" {
-				continue // re-download of an existing message's bytes, not a creation
+			// re-download of an existing message's bytes (cache miss), not a creation: what is written
+			// derives from the connector's GetMessageLiteral
+			redownload := false
+			for _, a := range cs.Common().Args {
+				if engine.AnyBackward(a, engine.FlowOpts{Loads: true, Calls: func(call *ssa.Call) []ssa.Value { return call.Call.Args }}, func(x ssa.Value) bool {
+					if call, ok := x.(*ssa.Call); ok && call.Call.IsInvoke() && call.Call.Method.Name() == "GetMessageLiteral" {
+						return true
+					}
+					if ex, ok := x.(*ssa.Extract); ok {
+						if call, ok := ex.Tuple.(*ssa.Call); ok && call.Call.IsInvoke() && call.Call.Method.Name() == "GetMessageLiteral" {
+							return true
+						}
+					}
+					return false
+				}) {
+					redownload = true
+				}
+			}
+			if redownload {
+				continue
 			}
 			R.Check(hasTxInScope(f), "R07.1", c.name(f)+"|store-write-in-tx", P.Pos(cs.Pos()), "literal is written while the creating transaction is still open", "a message literal is written outside the transaction that creates its row: a failure between the two leaves a row without bytes or bytes without a row")
 		}
@@ -182,8 +224,8 @@ func c07(c *Ctx) {
 				}
 				var closure *ssa.Function
 				for _, a := range call.Call.Args {
-					if fn := engine.FuncValue(a); fn != nil && fn.Parent() != nil {
-						closure = fn
+					if fn := engine.FuncValue(a); fn != nil && len(fn.Blocks) > 0 && takesTransaction(fn) {
+						closure = fn // closure literal or named function run as the transaction body
 					}
 				}
 				if closure == nil {
